@@ -89,6 +89,8 @@ def step (s0 : MState) (j : Json) : MState × Json :=
       let s2 := { s1 with faultIn := none }
       (s2, obs s2 x [("sched", .str verdict), ("hyp", hypJson s2 m p),
                      ("scope", .bool (callScopeB sched s (.setValue p v))),
+                     ("scope_f", .bool ((lookDef s.defs p).isNone && scopeFB s p &&
+                        validSchedule s.idx (chainR p) (sched (findTaskids s.idx (chainR p))) && x.isNone)),
                      ("order", .arr ((findTaskids m (chainR p)).map pathToJson).toArray)])
     | _, _ => bad s "set"
   | some "setexpr" =>
